@@ -310,6 +310,39 @@ def main():
                                  'cases': agg['n'], 'completed': agg['complete'], 'wall_s': round(time.time() - t, 1)})
         if not agg['complete']:
             ck.cov['exhaustive'] = False
+    # E3: histories (two texts early - cheap -, three texts last)
+    def run_e3(nh):
+        if ck.expired():
+            ck.cov['exhaustive'] = False
+            ck.cov['bounds'].append({'enumeration': 'E3', 'texts': nh, 'completed': False, 'reason': 'deadline before start'})
+            return
+        shards = []
+        for sid in ['F03', 'F05', 'F06', 'F07', 'F12', 'F16']:
+            sch = SCHEMAS[sid]
+            alpha = S.alphabet_for(sch)
+            pool = accepted_texts(sch, 0, alpha, 6, 40 if nh == 2 else 24)
+            rejects = [['zz', '=', '7'], [alpha[0], '=', '{'], ['}']]
+            for first in range(len(pool)):
+                shards.append((sid, 0, nh, first, pool, rejects, ck.deadline))
+        agg = {'n': 0, 'complete': True}
+
+        def on3(r, agg=agg):
+            ck.merge(r)
+            agg['n'] += r['evaluations']
+            agg['complete'] = agg['complete'] and r['complete']
+        t = time.time()
+        engine.run_shards(shard_e3, shards, on_result=on3)
+        ck.cov['bounds'].append({'enumeration': 'E3', 'texts': nh, 'schemas': 6, 'cases': agg['n'], 'completed': agg['complete'],
+                                 'wall_s': round(time.time() - t, 1)})
+        if not agg['complete']:
+            ck.cov['exhaustive'] = False
+
+    run_e3(2)
+    # several function calls in one text
+    Nf = 8 if quick else 10
+    inner, frontier = trace.viable_prefixes(SCHEMAS['F13'], 0, CALL_WORDS, 3)
+    shards = [('nodef', 'F13', 0, Nf, inner, ck.deadline)] + [('dfsf', 'F13', 0, Nf, ch, ck.deadline) for ch in chunks(frontier, 2)]
+    engine.phase(ck, 'E1 N=%d over the function-call alphabet (several calls in one text, each with its own arguments)' % Nf, shard_e1, shards, alphabet=len(CALL_WORDS))
     # E1 with a reduced alphabet, deeper: repeated titles, re-opened sections, a section named like the top-level context
     deep = ['F05', 'F06', 'F07', 'F08', 'F16', 'F18', 'F19', 'F20', 'F21', 'F22', 'F23']
     for N in ([8, 10] if quick else [10, 11, 12]):
@@ -324,11 +357,6 @@ def main():
                 for ch in chunks(frontier, 2):
                     shards.append(('dfsr', sid, cf, N, ch, ck.deadline))
         engine.phase(ck, 'E1 reduced alphabet N=%d' % N, shard_e1, shards, schemas=len(deep))
-    # several function calls in one text
-    Nf = 8 if quick else 10
-    inner, frontier = trace.viable_prefixes(SCHEMAS['F13'], 0, CALL_WORDS, 3)
-    shards = [('nodef', 'F13', 0, Nf, inner, ck.deadline)] + [('dfsf', 'F13', 0, Nf, ch, ck.deadline) for ch in chunks(frontier, 2)]
-    engine.phase(ck, 'E1 N=%d over the function-call alphabet (several calls in one text, each with its own arguments)' % Nf, shard_e1, shards, alphabet=len(CALL_WORDS))
     # E2: full product, no pruning
     L = 4 if quick else 5
     for LL in ([3, L] if quick else [4, L]):
@@ -359,33 +387,9 @@ def main():
                                  'wall_s': round(time.time() - t, 1)})
         if not agg['complete']:
             ck.cov['exhaustive'] = False
-    # E3: histories
     nhist = 2 if quick else 3
-    for nh in range(2, nhist + 1):
-        if ck.expired():
-            ck.cov['exhaustive'] = False
-            ck.cov['bounds'].append({'enumeration': 'E3', 'texts': nh, 'completed': False, 'reason': 'deadline before start'})
-            continue
-        shards = []
-        for sid in ['F03', 'F05', 'F06', 'F07', 'F12', 'F16']:
-            sch = SCHEMAS[sid]
-            alpha = S.alphabet_for(sch)
-            pool = accepted_texts(sch, 0, alpha, 6, 40 if nh == 2 else 24)
-            rejects = [['zz', '=', '7'], [alpha[0], '=', '{'], ['}']]
-            for first in range(len(pool)):
-                shards.append((sid, 0, nh, first, pool, rejects, ck.deadline))
-        agg = {'n': 0, 'complete': True}
-
-        def on3(r, agg=agg):
-            ck.merge(r)
-            agg['n'] += r['evaluations']
-            agg['complete'] = agg['complete'] and r['complete']
-        t = time.time()
-        engine.run_shards(shard_e3, shards, on_result=on3)
-        ck.cov['bounds'].append({'enumeration': 'E3', 'texts': nh, 'schemas': 6, 'cases': agg['n'], 'completed': agg['complete'],
-                                 'wall_s': round(time.time() - t, 1)})
-        if not agg['complete']:
-            ck.cov['exhaustive'] = False
+    for nh in range(3, nhist + 1):
+        run_e3(nh)
     ck.assumptions = ['tokens are joined by single blanks (layout variation is covered by C03/C06/C15)',
                       'behaviour the statements leave open (UNSPEC list in DESIGN.md section 4) is executed but not compared',
                       'inputs longer than the stated bounds are not covered']
